@@ -111,6 +111,26 @@ func ZZBecomeLeader(n, c, rf int) {
 		// truncate it, and a DB commit offset ahead of the log would make this node skip the replacements
 		co, _ := lc.db.ReadCommitOffset()
 		vAssert("failed-election-applies-nothing", co == int64(c) && m.commits == commitsBefore)
+		// C04: the failed election has left follower cursors and a quorum tracker of term T behind. When the node is
+		// fenced for the next term they must be torn down — nothing may be pushed or acknowledged on behalf of
+		// term T after the node has answered NewTerm(T+1).
+		cursors := []FollowerCursor{}
+		for _, fcur := range lc.followers {
+			cursors = append(cursors, fcur)
+		}
+		qat := lc.quorumAckTracker
+		resp, nerr := lc.NewTerm(&proto.NewTermRequest{Namespace: "zz", Shard: 1, Term: T + 1})
+		vAssert("fenced-for-the-next-term", nerr == nil && lc.term == T+1 && lc.status == proto.ServingStatus_FENCED)
+		if nerr == nil {
+			vAssert("reported-head-is-end-of-log", resp.HeadEntryId.Offset == w.lastAppended)
+		}
+		for _, fcur := range cursors {
+			vAssert("old-term-cursor-closed-by-the-next-new-term", fcur.(*followerCursor).closed.Load())
+		}
+		if qat != nil {
+			vAssert("old-term-tracker-closed-by-the-next-new-term", qat.(*quorumAckTracker).closed)
+		}
+		vAssert("no-replication-state-kept", len(lc.followers) == 0 && lc.quorumAckTracker == nil)
 	}
 	vReach("end")
 }
